@@ -1,6 +1,8 @@
 #!/bin/bash
 # Runs every quick check against every confirmed seed (applied to /repo, reverted afterwards); writes seeded/MATRIX.tsv
 cd /verif
+EVBAK=$(mktemp -d); cp -a /verif/evidence/. $EVBAK/
+trap 'cp -a $EVBAK/. /verif/evidence/; rm -rf $EVBAK; rm -f /verif/replays/*.json' EXIT
 OUT=seeded/MATRIX.tsv
 : > $OUT
 for d in seeded/C*/; do
